@@ -43,6 +43,7 @@ import (
 	traceql_transpiler "github.com/metrico/qryn/reader/traceql/transpiler"
 	"github.com/metrico/qryn/reader/traceql/transpiler/clickhouse_transpiler"
 	sql "github.com/metrico/qryn/reader/utils/sql_select"
+	"github.com/prometheus/prometheus/model/labels"
 	"github.com/metrico/qryn/reader/utils/tables"
 	"verif/harness/hx"
 )
@@ -94,6 +95,7 @@ type ProfSel struct {
 	Name string `json:"name"`
 	Op   string `json:"op"`
 	Val  string `json:"val"` // hex
+	E    bool   `json:"e"`   // the Prometheus matcher of the selector matches "" (the oracle StreamSelectorPlanner.Process asks)
 }
 
 // a plan object of any of the three languages
@@ -207,7 +209,13 @@ func build(c *Case) (pl *plan, kind string, err error) {
 					kind, err = "parse", uerr
 					return
 				}
-				sels = append(sels, ProfSel{Name: sl.Name, Op: sl.Op, Val: hx.Hex(v)})
+				ps := ProfSel{Name: sl.Name, Op: sl.Op, Val: hx.Hex(v)}
+				if mt, ok := map[string]labels.MatchType{"=": labels.MatchEqual, "!=": labels.MatchNotEqual, "=~": labels.MatchRegexp, "!~": labels.MatchNotRegexp}[sl.Op]; ok {
+					if pm, merr := labels.NewMatcher(mt, sl.Name, v); merr == nil {
+						ps.E = pm.Matches("")
+					}
+				}
+				sels = append(sels, ps)
 			}
 			switch c.Mode {
 			case "selector": // the bare fingerprint selection every profile request starts with
